@@ -61,9 +61,9 @@ class BoolOp:
 
 
 def negate(c):
-    if c is True:
+    if c is True or c is sp.true:
         return False
-    if c is False:
+    if c is False or c is sp.false:
         return True
     return c.neg()
 
@@ -225,8 +225,12 @@ class Alg:
             else:
                 raise Unsupported('int op %s' % op)
             return r
-        a = sp.sympify(a) if not isinstance(a, (Cond, BoolOp)) else a
-        b = sp.sympify(b) if not isinstance(b, (Cond, BoolOp)) else b
+        a = sp.sympify(a) if not isinstance(a, (Cond, BoolOp, bool)) else a
+        b = sp.sympify(b) if not isinstance(b, (Cond, BoolOp, bool)) else b
+        if a is sp.true or a is sp.false:
+            a = bool(a)
+        if b is sp.true or b is sp.false:
+            b = bool(b)
         if isinstance(a, (Cond, BoolOp)) or isinstance(b, (Cond, BoolOp)) or isinstance(a, bool) or isinstance(b, bool):
             if op in ('and', 'or') and ty.is_int and ty.a == 1:
                 if a is True or a is False or b is True or b is False:
